@@ -638,6 +638,43 @@ def rule_X4(F, R, clauses=('parse', 'order', 'model', 'retain', 'export', 'vars'
                 ok = neg and c['k'] == 'Call' and callee_name(c) == 'rsbdd::truth_table::TruthTableEntry::is_any'
             R.obligation(ok, 'X4 retain cond')
             if not ok: R.violation('rsbdd::main / X4 / retain condition', 'X4', 'retain_choice_bottom_up must be applied exactly when --retain-choices is not Any')
+    # option arguments: which command-line option reaches which parameter (value provenance, independent of code layout)
+    optargs = [('retain', 'retainarg', 'rsbdd::bdd::BDDEnv::retain_choice_bottom_up', 2, 'retain_choices', '--retain-choices'),
+               ('tablefilter', 'tablefilter', 'rsbdd::print_truth_table_recursive', 2, 'filter', '--filter'),
+               ('dotfilter', 'dotfilter', 'rsbdd::bdd_io::BDDGraph::new', 1, 'filter', '--filter')]
+    if any(cl in clauses for cl, *_ in optargs):
+        import flow
+        fl = flow.Flow(binc)
+        for cl, key, fnn, argi, field, opt in optargs:
+            if cl not in clauses: continue
+            found = []
+            flow.scan(fl, body, {}, lambda x, fnn=fnn: x.get('k') == 'Call' and callee_name(x) == fnn, found)
+            ok = len(found) == 1
+            got = None
+            if ok:
+                node, env = found[0]
+                got = fl.ev(node['args'][argi], env)
+                ok = got == ('field', ('args',), field)
+            R.count('X4:option-argument-%s' % key); R.obligation(ok, 'X4 optarg ' + key)
+            if not ok: R.violation('rsbdd::main / X4 / %s argument of %s' % (opt, fnn.split('::')[-1]), 'X4',
+                                   'the value of %s must reach %s unchanged (found %s)' % (opt, fnn.split('::')[-1], flow.show(got) if got is not None else '%d call(s)' % len(found)))
+    if 'tablefilter' in clauses:
+        # the recursive descent of the table printer hands its filter (and formula, widths) down unchanged
+        fn = 'rsbdd::print_truth_table_recursive'
+        pt = binc.ithir.get(fn)
+        ok = pt is not None
+        if ok:
+            import flow
+            fl = flow.Flow(binc)
+            pvars = [unwrap_pat(p['pat']).get('var') if 'pat' in p else None for p in pt['params']]
+            found = []
+            flow.scan(fl, pt['body'], {}, lambda x: x.get('k') == 'Call' and callee_name(x) == fn, found)
+            ok = len(found) >= 1
+            for node, env in found:
+                for i in (2, 3, 4):
+                    if i < len(pvars) and fl.ev(node['args'][i], env) != ('param', pvars[i]): ok = False
+        R.count('X4:table-recursion-passes-filter'); R.obligation(ok, 'X4 table recursion')
+        if not ok: R.violation('rsbdd::print_truth_table_recursive / X4 / recursive calls', 'X4', 'the recursive calls of the table printer must pass the filter, the formula and the widths on unchanged')
     if 'export' in clauses:
         ok = False
         for e in walk(body):
